@@ -29,6 +29,8 @@ claimed = {
          "bounds in evidence (keys <=2/3 bytes, pools of calendar names and dates); sort.Sort trusted; one known finding (date sort with mixed layouts, see known_findings.json)"),
  "C14": ("Real termscaler.Scale (clamps for every int64 triple and scaler, degenerate ranges, the linear part on an integer window), Bucket/LengthVal and HeatWrite/SparkWrite/BarWrite for every float64 magnitude in [0,1] (exact floating point, cvc5), BarWriteStacked/barWriteRunes for arbitrary int64 segments (128-bit product/quotient contracts), TableWriter column alignment for cells with colour codes and multi-byte runes, and Heatmap/Spark/DataTable/HistoWriter/BarGraph driven as the commands drive them on symbolic tables with arbitrary int64 values and limits >= 0: no panic or non-termination, one cell per displayed column, '(n more)' counts, displayed numbers = aggregated numbers under the formatter, bars within their width.",
          "bounds in evidence; compositional: renderer harnesses take any in-range bucket/length (stubs), Scale in [0,1] over the full int64 range and monotonicity are NOT decided (floating point beyond the back ends; stated as outside); percentages and fmt text outside"),
+ "C20": ("Real TermWriter.WriteForLine/goTo/writeAtCursor/Close, cursor.go escape builders, WriteLineNoWrap and VirtualTerm/BufferedTerm executed symbolically; the bytes written to os.Stdout are interpreted by a VT100-subset emulator written in the harness. One inductive step from an ARBITRARY writer state (cursor anywhere in the lines in use, any earlier screen contents) shows: the updated line holds exactly the new text (earlier longer text erased, colour codes taking no room), no other line changes, writer and terminal agree on the cursor, the last-line mark is the highest line written; Close parks the cursor below it, visible. Trimming: for every width and every line over ESC / printable ASCII / a two-byte rune the output is a prefix showing the first min(width, length) visible characters and not ending inside a completed colour sequence. Buffered writer prints the latest text of every line top to bottom.",
+         "bounds in evidence (3/5 lines, width 3/4, trim lines <=4/6 characters); the step is inductive over histories of any length within those sizes; VT100 + cooked-mode NL assumed; wide runes, scrolling, resize outside"),
 }
 man = {
  "version": 1,
